@@ -14,6 +14,7 @@ CONSTANTS
   MaxMid = 40
   KF_OversizeStale = FALSE
   KF_StaleRef = FALSE
+  KF_MetaByObject = FALSE
 INIT Init
 NEXT Next
 INVARIANT MonOk
